@@ -3,7 +3,7 @@ CONSTANTS
   ReadImpl = "intended"
   EofWithData = TRUE
   MaxNalLen = 4
-  MaxChunk = 5
+  MaxChunk = 4
   HdrSyms = {"S", "H", "Z", "O"}
   BodySyms = {"Z", "O", "F", "S"}
 SPECIFICATION Spec
